@@ -12,7 +12,7 @@ ID = 'C12'
 LEVEL = 'exploration'
 RUNS = {'quick': 16000, 'thorough': 300000}
 CHUNK = 40
-PROBES = ['filter_list_edited_in_place', 'boundary_subclass_event_kept', 'class_filter', 'subclass_filter', 'class_and_subclass', 'tid_filter', 'tid_and_class', 'empty_lists', 'tuple_filter',
+PROBES = ['tid_zero_filter', 'filter_list_edited_in_place', 'boundary_subclass_event_kept', 'class_filter', 'subclass_filter', 'class_and_subclass', 'tid_filter', 'tid_and_class', 'empty_lists', 'tuple_filter',
           'filter_matches_nothing', 'log_listing', 'log_process_filter_by_name', 'log_process_filter_by_pid', 'log_tid_filter',
           'abandoned_listing_before', 'reconfigured_between_requests', 'v3_dump']
 RULE = ('one run = one long-lived PyKdebugParser, a history of 2..7 operations (reconfigure filters, abandoned listing, judged '
@@ -41,7 +41,7 @@ def _gen_filters(rng, dump, stream_ids, tids, procs):
         f['cls'] = []
         f['sub'] = []
     if rng.chance(0.3):
-        f['proc'] = rng.pick(procs) if procs and rng.chance(0.8) else 'nosuch'
+        f['proc'] = rng.pick(procs) if procs and rng.chance(0.8) else rng.pick(['nosuch', '', '0'])
     f['as_tuple'] = rng.chance(0.3)
     return f
 
@@ -61,6 +61,13 @@ def generate(rng, index, tier):
             th = rng.pick(d['threads'])
             th['ops'].insert(rng.randrange(len(th['ops']) + 1),
                              {'k': 'raw', 'id': (c << 24) | (sub << 16) | code, 'q': rng.randrange(4), 'a': rng.words()})
+    for d in dumps:
+        if rng.chance(0.25):
+            old = d['threads'][0]['tid']
+            d['threads'][0]['tid'] = 0          # thread id 0 is a legal thread id (and a legal filter value)
+            for t in d['writer'].get('tmap', []):
+                if t[0] == old:
+                    t[0] = 0
     hist = []
     for _ in range(rng.randint(2, 7)):
         di = rng.randrange(len(dumps))
@@ -218,6 +225,8 @@ def execute(scn):
                 bump('probe:subclass_filter')
             if cur.get('cls') and cur.get('sub'):
                 bump('probe:class_and_subclass')
+            if cur.get('tid') == 0:
+                bump('probe:tid_zero_filter')
             if cur.get('tid') is not None:
                 bump('probe:tid_filter')
                 if cur.get('cls') or cur.get('sub'):
